@@ -1,8 +1,8 @@
-(* C10 -- Optical propagators conserve power (model: coq/model/Optics.v, tied to
+(* C10 -- Optical propagators are linear and conserve power (model: coq/model/Optics.v, tied to
    aotools/opticalpropagation.py by the correspondence check; transforms: model/Fourier.v). *)
 From Coq Require Import Reals List Arith.
 Require Import AOV.base.Num AOV.base.NumR AOV.base.Cplx AOV.model.Fourier AOV.model.Optics
-               AOV.proofs.C10_proofs.
+               AOV.proofs.C10_proofs AOV.proofs.C10_linear.
 Local Open Scope R_scope.
 
 (* sum |U_out|^2 d_out^2 = sum |U_in|^2 d_in^2, any complex field on any N x N grid, either sign of z *)
@@ -37,5 +37,38 @@ Proof. exact lens_power. Qed.
 Print Assumptions C10_power_lens.
 
 (* non-vacuity: a 2 x 2 field meets the hypotheses *)
+(* ---- linearity: every propagator maps a U + b V to a P(U) + b P(V), for all complex a b, all N x N fields and
+   all real parameters (no side condition at all: also for z = 0, unit magnification, ...) ---- *)
+Theorem C10_linear_angular_spectrum : forall G K a b N (U V : list (list (R * R))) wvl d1 d2 z,
+  wf_mat N N U -> wf_mat N N V -> (0 < N)%nat ->
+  angularSpectrum (ROps G K) (lin2 G K a b U V) wvl d1 d2 z
+  = lin2 G K a b (angularSpectrum (ROps G K) U wvl d1 d2 z) (angularSpectrum (ROps G K) V wvl d1 d2 z).
+Proof. exact AS_linear. Qed.
+Print Assumptions C10_linear_angular_spectrum.
+
+Theorem C10_linear_one_step : forall G K a b N (U V : list (list (R * R))) wvl d1 z,
+  wf_mat N N U -> wf_mat N N V -> (0 < N)%nat ->
+  oneStepFresnel (ROps G K) (lin2 G K a b U V) wvl d1 z
+  = lin2 G K a b (oneStepFresnel (ROps G K) U wvl d1 z) (oneStepFresnel (ROps G K) V wvl d1 z).
+Proof. exact oneStep_linear. Qed.
+
+Theorem C10_linear_two_step : forall G K a b N (U V : list (list (R * R))) wvl d1 d2 z,
+  wf_mat N N U -> wf_mat N N V -> (0 < N)%nat ->
+  twoStepFresnel (ROps G K) (lin2 G K a b U V) wvl d1 d2 z
+  = lin2 G K a b (twoStepFresnel (ROps G K) U wvl d1 d2 z) (twoStepFresnel (ROps G K) V wvl d1 d2 z).
+Proof. exact twoStep_linear. Qed.
+Print Assumptions C10_linear_two_step.
+
+Theorem C10_linear_lens : forall G K a b N (U V : list (list (R * R))) wvl d1 f,
+  wf_mat N N U -> wf_mat N N V -> (0 < N)%nat ->
+  lensAgainst (ROps G K) (lin2 G K a b U V) wvl d1 f
+  = lin2 G K a b (lensAgainst (ROps G K) U wvl d1 f) (lensAgainst (ROps G K) V wvl d1 f).
+Proof. exact lens_linear. Qed.
+
+(* lin2 a b U V is the entrywise a*U + b*V *)
+Theorem C10_lin2_is_the_linear_combination : forall G K a b (U V : list (list (R * R))),
+  lin2 G K a b U V = map2 (map2 (cadd (ROps G K))) (cmulc_m (ROps G K) a U) (cmulc_m (ROps G K) b V).
+Proof. reflexivity. Qed.
+
 Example C10_nonvacuous : wf_mat 2 2 (((1,0)::(0,1)::nil)::((2,0)::(0,0)::nil)::nil : list (list (R*R))) /\ (0 < 2)%nat.
 Proof. split; [split; [reflexivity|repeat constructor]|repeat constructor]. Qed.
